@@ -782,7 +782,7 @@ func (env *Env) call(e *Expr) *Val {
 			return scalar(slen(v.T), types.Typ[types.Int])
 		case v.Ty != nil:
 			if mt, ok := v.Ty.Underlying().(*types.Map); ok {
-				return scalar(env.ex.mapLen(env.cur, mt, v.T), types.Typ[types.Int])
+				return scalar(Ite(Eq(v.T, IntLit(0, SRef)), IntLit(0, SInt), env.ex.mapLen(env.cur, mt, v.T)), types.Typ[types.Int])
 			}
 		}
 		env.fail("len() of %s", v)
